@@ -384,7 +384,9 @@ fn cmd_check(a: &Args) -> i32 {
     }
 
     // evidence
-    let evaluations: u64 = env.subs.iter().map(|s| s.evals).sum::<u64>() + child_evals;
+    let fuzz_stats = a.opts.get("fuzz-stats").and_then(|p| std::fs::read_to_string(p).ok()).and_then(|t| json::parse(&t));
+    let fuzz_execs = fuzz_stats.as_ref().and_then(|f| f.get("executions")).and_then(|x| x.as_i64()).unwrap_or(0) as u64;
+    let evaluations: u64 = env.subs.iter().map(|s| s.evals).sum::<u64>() + child_evals + fuzz_execs;
     let distinct: u64 = env.subs.iter().map(|s| s.distinct).sum();
     let mut samples: Vec<J> = Vec::new();
     for s in &env.subs {
@@ -410,7 +412,7 @@ fn cmd_check(a: &Args) -> i32 {
     if !child_subs.is_empty() {
         cov.push(("subchecks_release_profile", J::Arr(child_subs)));
     }
-    if let Some(fs) = a.opts.get("fuzz-stats").and_then(|p| std::fs::read_to_string(p).ok()).and_then(|t| json::parse(&t)) {
+    if let Some(fs) = fuzz_stats {
         cov.push(("fuzzing", fs));
     }
     cov.push(("known_finding_hits", J::Obj(known.iter().map(|(k, v)| (k.clone(), J::Int(*v as i64))).collect())));
